@@ -47,7 +47,7 @@ theorem instance0_general (d : LcDoc) (hw : WF d) :
   simp only
   rw [get?_insts]
   have hl : get? (d.loose.foldl (applyEntry sZero) []) sZero = d.loose.foldl upd none := by
-    have := get?_applyInst ⟨sZero, d.loose⟩ sZero []
+    have := get?_applyInst ⟨sZero, d.loose, none⟩ sZero []
     simpa [applyInst] using this
   rw [hl, ← List.foldl_append, foldl_upd_none]
   rfl
@@ -109,7 +109,7 @@ theorem ok_model (vars : PyDict S S) (d : LcDoc) (hw : WF d) (hl : d.loose = [])
       have : entries0 d = [] := List.isEmpty_iff.mp he
       simp [master0, this, ofList, merge]
     simp [he, ok, observe, hm, relevant, applyAll]
-  · simp [he, ok, observe]
+  · simp [he, ok, observe, sameNames_self]
 
 theorem ok_model_empty (vars : PyDict S S) (evs : List Sax) :
     ok vars none (observe vars (expand vars true evs)) = true := by
@@ -123,9 +123,9 @@ example :
       ⟨p.map (·.toList), n.toList, c.map (·.toList), v.toList⟩
     let d : LcDoc := ⟨[("xmlns".toList, "urn:x".toList)],
       [⟨"0".toList, [e none "Volume" (some "Master") "10", e none "Volume" (some "LF") "99",
-                     e (some "rcs") "Mute" none "1", e none "Bogus" none "b"]⟩,
-       ⟨"1".toList, [e none "Volume" (some "Master") "77"]⟩,
-       ⟨"0".toList, [e (some "x") "Volume" none "12"]⟩], []⟩
+                     e (some "rcs") "Mute" none "1", e none "Bogus" none "b"], none⟩,
+       ⟨"1".toList, [e none "Volume" (some "Master") "77"], some "rcs".toList⟩,
+       ⟨"0".toList, [e (some "x") "Volume" none "12"], some "avt".toList⟩], []⟩
     let vars : PyDict S S := [("Volume".toList, "5".toList), ("Mute".toList, "0".toList)]
     wfB d = true
     ∧ (run (events d)).toOption.map (·.changes) = some
@@ -141,7 +141,7 @@ example :
     `"0"`, the expansion sets `Volume`, and the judge (which reads the property text: nothing
     changes without instance 0) rejects the observation. -/
 example :
-    let d : LcDoc := { rootAttrs := [], insts := [⟨"1".toList, []⟩],
+    let d : LcDoc := { rootAttrs := [], insts := [⟨"1".toList, [], none⟩],
                        loose := [⟨none, "Volume".toList, none, "4".toList⟩] }
     let vars : PyDict S S := [("Volume".toList, "5".toList)]
     wfB d = true ∧ d.loose ≠ []
